@@ -25,7 +25,8 @@ pub enum NonDisk {
 
 #[derive(Clone, Debug, Serialize, Deserialize)]
 pub enum Case {
-    Planar { spec: MeshSpec, t: Iso3D, #[serde(default = "one")] unit: f64 },
+    /// orphans: vertices appended to the vertex list that no face references
+    Planar { spec: MeshSpec, t: Iso3D, #[serde(default = "one")] unit: f64, #[serde(default)] orphans: Vec<P3> },
     Curved { spec: MeshSpec, t: Iso3D, #[serde(default = "one")] unit: f64 },
     Reject { kind: NonDisk, spec: MeshSpec },
     Uv { spec: MeshSpec, affine: [f64; 6], samples: Vec<(u16, f64, f64, f64)> },
@@ -67,7 +68,7 @@ impl Property for C20 {
     type Case = Case;
     const ID: &'static str = "C20";
     fn rule() -> &'static str {
-        "families: planar triangulated disks built in 2D by the harness (jittered grids 3x3..16x16 quick / 40x40 thorough with random diagonals, strips of aspect up to 1:30, L-shaped non-convex outlines, fans) with shuffled vertex numbering and face order, all-CCW or all-CW winding, lifted by an arbitrary isometry, in the generated length unit (cells 0.5..4) or scaled as a whole by 1e-7..1e4; curved disks (height fields, domes, creases, cones) for the invariance clause; non-disks (closed solids, tubes with two boundary loops, two components, a fin making an edge shared by three faces, bow-tie of two disks, grid with an interior hole) for the rejection clause; meshes carrying a UV map that is an affine image of their planar layout with random (face, barycentric, height) samples. Oracle: edge lengths and triangle areas preserved, one orientation sign, result finite; flatten(T mesh) equals flatten(mesh) up to a planar rigid motion; Err for non-disks; UV round trip. Non-trivial: at least one interior vertex, shuffled numbering and a pose that is not axis-aligned. Distinct = distinct canonical JSON."
+        "families: planar triangulated disks built in 2D by the harness (jittered grids 3x3..16x16 quick / 40x40 thorough with random diagonals, strips of aspect up to 1:30, L-shaped non-convex outlines, fans) with shuffled vertex numbering and face order, all-CCW or all-CW winding, lifted by an arbitrary isometry, a fifth of them with 1-3 unreferenced vertices appended to the vertex list, in the generated length unit (cells 0.5..4) or scaled as a whole by 1e-7..1e4; curved disks (height fields, domes, creases, cones) for the invariance clause; non-disks (closed solids, tubes with two boundary loops, two components, a fin making an edge shared by three faces, bow-tie of two disks, grid with an interior hole) for the rejection clause; meshes carrying a UV map that is an affine image of their planar layout with random (face, barycentric, height) samples. Oracle: edge lengths and triangle areas preserved, one orientation sign, result finite; flatten(T mesh) equals flatten(mesh) up to a planar rigid motion; Err for non-disks; UV round trip. Non-trivial: at least one interior vertex, shuffled numbering and a pose that is not axis-aligned. Distinct = distinct canonical JSON."
     }
     fn cases(t: Tier) -> u32 {
         t.pick(50_000, 200_000)
@@ -76,7 +77,7 @@ impl Property for C20 {
         Some(Duration::from_secs(30))
     }
     fn expected_labels() -> Vec<&'static str> {
-        vec!["planar", "planar_cw", "planar_ccw", "curved", "reject_closed", "reject_two_loops", "reject_two_components", "reject_nonmanifold", "reject_bowtie", "reject_hole", "uv", "nonconvex", "unit_below_1e-4"]
+        vec!["planar", "planar_cw", "planar_ccw", "curved", "reject_closed", "reject_two_loops", "reject_two_components", "reject_nonmanifold", "reject_bowtie", "reject_hole", "uv", "nonconvex", "unit_below_1e-4", "unreferenced_vertices"]
     }
     fn strategy(t: Tier) -> BoxedStrategy<Case> {
         let nmax = t.pick(16, 40);
@@ -89,7 +90,7 @@ impl Property for C20 {
             disk_spec((5usize..9, 5usize..9, unif(1.0, 3.0), unif(1.0, 3.0), any::<u64>()).prop_map(|(nx, ny, sx, sy, diag)| MeshKind::Grid { nx, ny, sx, sy, jitter: 0.2, diag, height: Height::Flat }).boxed()).prop_map(|spec| Case::Reject { kind: NonDisk::GridWithHole, spec }),
         ];
         prop_oneof![
-            5 => (disk_spec(planar_kind(nmax)), iso3(100.0), unit()).prop_map(|(spec, t, unit)| Case::Planar { spec, t, unit }),
+            5 => (disk_spec(planar_kind(nmax)), iso3(100.0), unit(), prop_oneof![4 => Just(vec![]), 1 => prop::collection::vec(p3(5.0), 1..4)]).prop_map(|(spec, t, unit, orphans)| Case::Planar { spec, t, unit, orphans }),
             2 => (disk_spec(curved_kind(nmax.min(20))), iso3(100.0), unit()).prop_map(|(spec, t, unit)| Case::Curved { spec, t, unit }),
             2 => reject,
             2 => (disk_spec(planar_kind(8)), [unif(0.5, 2.0), unif(-0.5, 0.5), unif(-0.5, 0.5), unif(0.5, 2.0), unif(-5.0, 5.0), unif(-5.0, 5.0)], prop::collection::vec((any::<u16>(), unif(0.05, 0.9), unif(0.05, 0.9), prop_oneof![Just(0.0), unif(-0.05, 0.05)]), 1..12)).prop_map(|(spec, affine, samples)| Case::Uv { spec, affine, samples }),
@@ -98,7 +99,7 @@ impl Property for C20 {
     }
     fn check(case: &Case) -> Verdict {
         match case {
-            Case::Planar { spec, t, unit } => planar(spec, t, *unit),
+            Case::Planar { spec, t, unit, orphans } => planar(spec, t, *unit, orphans),
             Case::Curved { spec, t, unit } => curved(spec, t, *unit),
             Case::Reject { kind, spec } => reject(kind, spec),
             Case::Uv { spec, affine, samples } => uv(spec, affine, samples),
@@ -147,7 +148,7 @@ fn rel_tolerance(soup: &crate::oracle::Soup) -> f64 {
     (1e-6 * m * (soup.v.len() as f64 / 100.0).max(1.0)).clamp(1e-5, 1e-3)
 }
 
-fn planar(spec: &MeshSpec, t: &Iso3D, unit: f64) -> Verdict {
+fn planar(spec: &MeshSpec, t: &Iso3D, unit: f64, orphans: &[P3]) -> Verdict {
     let mut cx = Ctx::new();
     cx.label("planar");
     let Some(mut bm) = spec.build() else { return Verdict::Discard("empty mesh") };
@@ -181,13 +182,20 @@ fn planar(spec: &MeshSpec, t: &Iso3D, unit: f64) -> Verdict {
     // cotangent (thin triangles) and with the number of vertices; the property states no figure, the harness allows
     // 1e-5 relative for well-shaped small meshes and up to 1e-3 for thin-celled meshes with thousands of vertices
     let rel = rel_tolerance(&soup);
-    let uv = match flatten(&bm.v, &bm.f) {
+    // the vertex list handed to the library may carry vertices that no face references (appended, so indices stay valid):
+    // "one finite position per vertex" covers them, the shape clauses are about the referenced ones
+    let n0 = bm.v.len();
+    let mut vin = bm.v.clone();
+    vin.extend(orphans.iter().map(|p| Point3::from(pt3(p).coords * unit)));
+    cx.label_if(!orphans.is_empty(), "unreferenced_vertices");
+    let mut uv = match flatten(&vin, &bm.f) {
         Ok(Ok(uv)) => uv,
-        Ok(Err(e)) => return Verdict::fail("C20/flatten/planar_disk_rejected", format!("planar disk with {} vertices, {} faces rejected: {e}", bm.v.len(), bm.f.len())),
+        Ok(Err(e)) => return Verdict::fail("C20/flatten/planar_disk_rejected", format!("planar disk with {} vertices, {} faces rejected: {e}", vin.len(), bm.f.len())),
         Err(m) => return Verdict::fail("C20/flatten/panic", m),
     };
-    ensure!(uv.len() == bm.v.len(), "C20/flatten/count", "{} uv points for {} vertices", uv.len(), bm.v.len());
+    ensure!(uv.len() == vin.len(), "C20/flatten/count", "{} uv points for {} vertices", uv.len(), vin.len());
     ensure!(uv.iter().all(|p| p.x.is_finite() && p.y.is_finite()), "C20/flatten/non_finite", "non-finite uv coordinate");
+    uv.truncate(n0);
     // edges keep their length
     for e in bm.topo.edge_faces.keys() {
         let l3 = (bm.v[e.0 as usize] - bm.v[e.1 as usize]).norm();
@@ -224,16 +232,18 @@ fn planar(spec: &MeshSpec, t: &Iso3D, unit: f64) -> Verdict {
     // invariance under a rigid motion of the input, and across repeated runs
     let mut iso = t.to_iso();
     iso.translation.vector *= unit;
-    let moved: Vec<Point3> = bm.v.iter().map(|p| iso * p).collect();
+    let moved: Vec<Point3> = vin.iter().map(|p| iso * p).collect();
     match flatten(&moved, &bm.f) {
-        Ok(Ok(uv2)) => {
+        Ok(Ok(mut uv2)) => {
+            uv2.truncate(n0);
             let r = rigid_residual(&uv, &uv2);
             ensure!(r <= 0.1 * rel * size * (1.0 + iso.translation.vector.norm() / size * 1e-3), "C20/flatten/not_invariant_under_rigid_motion", "flattening of the moved mesh differs from the original flattening by {r:e} after the best planar rigid fit");
         }
         Ok(Err(e)) => return Verdict::fail("C20/flatten/moved_disk_rejected", e),
         Err(m) => return Verdict::fail("C20/flatten/panic", m),
     }
-    if let Ok(Ok(uv3)) = flatten(&bm.v, &bm.f) {
+    if let Ok(Ok(mut uv3)) = flatten(&vin, &bm.f) {
+        uv3.truncate(n0);
         ensure!(rigid_residual(&uv, &uv3) <= 0.1 * rel * size, "C20/flatten/not_repeatable", "two runs on the same mesh differ");
     }
     let interior = bm.v.len() as i64 - bm.topo.boundary_edges as i64;
